@@ -129,6 +129,27 @@ def build_traces(path, tier, seed):
             fas = np.array(o.fa_spectrum)
             N = next_pow2(n)
             v = 8
+        sel9 = int(rng.integers(6))
+        if v != 8 and sel9 == 0:
+            # both options given: the explicit transform length wins (array level and object level agree)
+            n9 = n + int(rng.integers(0, 7))
+            p9 = int(rng.integers(0, 3))
+            if i % 2:
+                fas, fr = fq.calc_fa_spectrum(eqsig.Signal(np.asarray(x, dtype=float), dt), n=n9, p2_plus=p9)
+            else:
+                o9 = eqsig.AccSignal(np.asarray(x, dtype=float), dt)
+                o9.gen_fa_spectrum(p2_plus=p9, n=n9)
+                fas, fr = o9.fa_spectrum, o9.fa_freqs
+            N, v = n9, 9
+        elif v != 8 and sel9 == 1:
+            # a sequence of explicit transform lengths on ONE object (incl. pairs 2m / 2m+1 with the same number of bins)
+            o10 = eqsig.Signal(np.asarray(x, dtype=float), dt)
+            _ = o10.fa_spectrum
+            N = next_pow2(n)
+            for step_ in range(int(rng.integers(1, 4))):
+                N = [N + 1, N - 1 if N - 1 >= n else N + 1, N + 2, next_pow2(n) + 1][0 if step_ == 0 else int(rng.integers(4))]
+                o10.gen_fa_spectrum(n=N)
+            fas, fr, v = o10.fa_spectrum, o10.fa_freqs, 10
         objfas, objfr = [], []
         if v in (6, 7) and v != 8:      # array-level function against the object-level result with the same transform length
             o = eqsig.AccSignal(x, dt)
@@ -138,6 +159,20 @@ def build_traces(path, tier, seed):
         add({"kind": "fas", "dt": enc(dt), "x": enc_seq(x), "N": int(N), "fas": enc_cseq(fas), "freqs": enc_seq(fr),
              "objfas": enc_cseq(objfas), "objfreqs": enc_seq(objfr)},
             {"kind": "fas", "n": n, "N": int(N), "variant": v, "dt": dt, "shape": shape})
+    # a signal with COMPLEX values (what fas2signal returns): reading its spectrum leaves the record as it is
+    for j in range(4 if tier == "quick" else 24):
+        n = int(2 ** rng.integers(2, 8)) if j % 2 else int(rng.integers(4, 100))
+        x, shape = gen.record(rng, n, amp=1.0)
+        dt = [0.01, 0.5][j % 2]
+        src = eqsig.Signal(x, dt)
+        sig_c = fq.fas2signal(np.array(src.fa_spectrum if j % 4 < 2 else fq.calc_fa_spectrum(src)[0]), dt, stype="signal")
+        before = np.array(sig_c.values, dtype=complex)
+        _ = (sig_c.fa_spectrum, sig_c.fa_freqs)
+        if j % 3 == 0:
+            sig_c.gen_fa_spectrum(n=len(before))
+        after = np.array(sig_c.values, dtype=complex)
+        add({"kind": "rel", "clause": "DftValues", "x": enc_seq(np.concatenate([before.real, before.imag])), "y": enc_seq(np.concatenate([after.real, after.imag])) if len(after) == len(before) else []},
+            {"kind": "rel", "law": "reading the spectrum of a complex-valued signal leaves its record unchanged", "n": n, "len": len(before)})
     ndom = 16 if tier == "quick" else 100
     for i in range(ndom):
         n = int(rng.integers(16, 400))
